@@ -37,6 +37,9 @@ JOIN_ATTRS = {
 ATTRS.update(JOIN_ATTRS)
 # pseudo attribute of the collection harness (tools/c01_coll.py, coq/Model/C01Coll.v): the value of a count-subquery
 ATTRS['group.cnt'] = (30, 'int', False)
+# pseudo attributes of the formula harness (coq/Model/C01Form.v): column 40 + k holds the value of the k-th subquery; ('sub', 40 + k) is the
+# truth value of an EXISTS / IN subquery (leaf ESub), 'group.q<40 + k>' the integer of a count-subquery
+for _k in range(40, 50): ATTRS['group.q%d' % _k] = (_k, 'int', False)
 BY_ID = {v[0]: k for k, v in ATTRS.items()}
 
 
@@ -106,6 +109,7 @@ def _ty_of(e, ty_of):
     if k in ('int', 'str', 'bool'): return k
     if k == 'none': return 'none'
     if k == 'param': return e[2] if e[2] is not None else 'none'
+    if k == 'sub': return 'cond'
     if k == 'arith':
         ta, tb = ty_of(e[2]), ty_of(e[3])
         if (ta, tb) in (('int', 'int'), ('int', 'bool'), ('bool', 'int')): return 'int'
@@ -134,7 +138,7 @@ def _ty_of(e, ty_of):
         return None
     if k == 'if':
         tc, tt, tf = ty_of(e[1]), ty_of(e[2]), ty_of(e[3])
-        if tc in ('cond', 'str', 'bool') and tt in VT and tt == tf: return tt
+        if tc in ('cond', 'str', 'bool', 'int') and tt in VT and tt == tf: return tt      # an int test raised before repo commit 809623a
         return None
     if k == 'coalesce':
         ts = [ty_of(x) for x in e[1]]
@@ -149,7 +153,7 @@ def _ty_of(e, ty_of):
 
 def children(e):
     k = e[0]
-    if k in ('attr', 'int', 'str', 'bool', 'none', 'param'): return []
+    if k in ('attr', 'int', 'str', 'bool', 'none', 'param', 'sub'): return []
     if k in ('arith', 'cmp', 'cmpc'): return [e[2], e[3]]
     if k in ('neg', 'abs', 'len', 'not', 'upper', 'lower'): return [e[1]]
     if k in ('concat', 'and', 'or'): return [e[1], e[2]]
@@ -163,7 +167,7 @@ def children(e):
 
 
 def has_attr(e):
-    return e[0] == 'attr' or any(has_attr(c) for c in children(e))
+    return e[0] in ('attr', 'sub') or any(has_attr(c) for c in children(e))
 
 
 def wf(e):
@@ -172,7 +176,7 @@ def wf(e):
     not negative (`-1` is such an external expression)."""
     k = e[0]
     if k == 'int': return e[1] >= 0
-    if k in ('attr', 'str', 'bool', 'none', 'param'): return True
+    if k in ('attr', 'str', 'bool', 'none', 'param', 'sub'): return True
     if not has_attr(e): return False
     if k == 'in' and not all(l[0] != 'int' or l[1] >= 0 for l in e[3]): return False
     return all(wf(c) for c in children(e))
@@ -220,6 +224,7 @@ def src(e):
     if k == 'bool': return 'True' if e[1] else 'False'
     if k == 'none': return 'None'
     if k == 'param': return 'x%d' % e[1]
+    if k == 'sub': return 'p.group.s%d' % e[1]
     if k == 'arith': return '(%s %s %s)' % (src(e[2]), e[1], src(e[3]))
     if k == 'neg': return '(-%s)' % src(e[1])
     if k == 'abs': return 'abs(%s)' % src(e[1])
@@ -269,6 +274,7 @@ def coq(e, nullable=None):
     if k == 'bool': return '(EBool %s)' % ('true' if e[1] else 'false')
     if k == 'none': return 'ENone'
     if k == 'param': return '(EParam %d %s)' % (e[1], 'None' if e[2] is None else '(Some %s)' % _VTY[e[2]])
+    if k == 'sub': return '(ESub %d)' % e[1]
     if k == 'arith': return '(EArith %s %s %s)' % (_AOP[e[1]], r(e[2]), r(e[3]))
     if k == 'neg': return '(ENeg %s)' % r(e[1])
     if k == 'abs': return '(EAbs %s)' % r(e[1])
@@ -437,6 +443,7 @@ def ref(e, row, params, k3=False):
     if k in ('int', 'str', 'bool'): return e[1]
     if k == 'none': return None
     if k == 'param': return params[e[1]]
+    if k == 'sub': return row['group.s%d' % e[1]]
     if k == 'arith':
         a, b = R(e[2]), R(e[3])
         if a is None or b is None: return None
@@ -654,7 +661,7 @@ class Gen(object):
             a, b = self.pair(lambda fa: self.value('str', d - 1, fa), lambda fa: self.value('str', d - 1, fa))
             return ('concat', a, b)
         if f == 'if':
-            kind = rng.choice(('cond', 'cond', 'str', 'bool'))
+            kind = rng.choice(('cond', 'cond', 'str', 'bool', 'int'))
             mk = [lambda fa: (self.cond(d - 1, fa) if kind == 'cond' else self.value(kind, d - 1, fa)),
                   lambda fa: self.value(t, d - 1, fa), lambda fa: self.value(t, d - 1, fa)]
             c, x, y = self.several(mk)
